@@ -186,6 +186,27 @@ class OptionsRepository:
         return result
 
     @classmethod
+    def parse_stored_options(cls, stored: dict) -> dict:
+        """
+        Restores the native type of option values that have been through
+        flatten() to be stored as JSON (Stream.defaults): a datetime is
+        stored as its ISO 8601 text.
+        """
+        param_map = cls.get_parameter_map()
+        result: dict = {}
+        for name, value in stored.items():
+            result[name] = value
+            if not isinstance(value, str) or name not in param_map:
+                continue
+            try:
+                parsed = param_map[name].from_string(value)
+            except ValueError:
+                continue
+            if not isinstance(parsed, (str, type(None))):
+                result[name] = parsed
+        return result
+
+    @classmethod
     def convert_cgi_options(cls, params: dict[str, str],
                             defaults: OptionsContainer | None = None) -> OptionsContainer:
         """
